@@ -2084,3 +2084,7 @@ mod tests {
         }
     }
 }
+
+#[cfg(kani)]
+#[path = "/verif/kani/scion_stack/pathset.rs"]
+mod verif_pathset;
